@@ -208,7 +208,8 @@ class DeepONetDataset_Unique(torch.utils.data.Dataset):
             The index of the desired point.
         """
         # frist slice in branch dimension (dim 0):
-        branch_idx = int(idx / self.branch_batch_len)
+        # (the trunk batches are the fast running index)
+        branch_idx = idx // self.trunk_batch_len
         a = (branch_idx * self.branch_batch_size) % len(self.branch_data_points)
         b = ((branch_idx + 1) * self.branch_batch_size) % len(self.branch_data_points)
         if a < b:
